@@ -13,8 +13,9 @@ PROP = "C18"
 MIN_OBLIGATIONS = 100
 ASSUMPTIONS = [
     "E5: asyncio.open_connection raises OSError without side effects or returns a fresh open (reader, writer)",
-    "E6: writer.close() then await writer.wait_closed() return normally, are idempotent, and afterwards the peer observes end-of-stream "
-    "(a connection reset surfacing in wait_closed is an environment fault outside the statement's alphabet)",
+    "E6: writer.close() is idempotent and afterwards the peer observes end-of-stream; await writer.wait_closed() returns normally, except "
+    "(E6') on a connection the device reset - possible after an operation has failed on it - where it raises ConnectionResetError / "
+    "BrokenPipeError on every call (observed natively on loopback: defect F9)",
     "operations never assign _connected / _writer / _reader: proved for every operation and path by C03's frame condition; re-checked "
     "here for one returning and one raising operation inside the histories",
     "connect on an already connected client is not claimed either way (one socket per connect/disconnect pair)",
@@ -99,6 +100,10 @@ def units(tier):
                 api.attrs["_connected"] = pre == "connected"
                 if pre == "disconnected":
                     old_writer.state["closed"] = True
+                # the device may have reset this connection (an earlier operation failed on it): environment E6'
+                if ctx.fork(2) == 1:
+                    old_writer.state["maybe_lost"] = True
+                    base0 += "/connection_reset_by_device"
             if pre == "connected" and meth in ("connect", "__aenter__"):
                 return obs          # connect requires "not connected": not claimed
             ctx.ghost.events.clear()
@@ -184,6 +189,8 @@ def units(tier):
                             args = []
                         ob = outcome_of(lambda: ip.call_function(api.cls.find_method(m), [api] + args, {}, ctx))
                         obs.append(Obligation(base + "/operation_outcome", ctx, (ob[0] == "ret") == (a == "op_ok")))
+                        if a == "op_raise" and isinstance(api.attrs.get("_writer"), EnvObj):
+                            api.attrs["_writer"].state["maybe_lost"] = True     # the operation may have failed because the device reset the connection
                     elif a == "disconnect":
                         ob = outcome_of(lambda: ip.call_function(api.cls.find_method("disconnect"), [api], {}, ctx))
                         obs.append(Obligation(base + "/disconnect_returns", ctx, ob[0] == "ret"))
